@@ -98,3 +98,18 @@ def f11_mentioned_zid() -> bool:
     # pick the note 240105#m2 (sorted ZIDs: 200101#d1..d5, 240105#m1, m2, m3)
     err, info = c10.check_move(pages, 6, "notes.zo", None)
     return bool(err) and info.get("zid") == "240105#m2"
+
+
+def f10_order_none_string_compare() -> bool:
+    import logging
+
+    logging.disable(logging.CRITICAL)
+    from checks.zdirlab import Lab
+    from zorg.service.swog import execute
+
+    with Lab() as lab:
+        lab.write("p.zo", "# P\n\n" + "".join(f"- 240110#A{i:x} item {i}\n" for i in range(1, 13)) + "\n")
+        lab.create()
+        out = execute(lab.zdir, lab.db_url, "S note W - O none")
+        lines = [ln for ln in out.split("\n") if ln.startswith("- ")]
+        return lines.index("- 240110#Aa item 10") < lines.index("- 240110#A2 item 2")
